@@ -40,7 +40,8 @@ def main():
         if pid in PURE:
             na.append({"property_id": pid, "reason": "not applicable under deterministic simulation: " + PURE[pid]})
             continue
-        if not os.path.exists(path):
+        ready = set(open(os.path.join(ROOT, "READY")).read().split())
+        if not os.path.exists(path) or pid not in ready:
             na.append({"property_id": pid, "reason": "simulation check designed (DESIGN.md section 7) but not built yet; no claim is made"})
             continue
         mod = importlib.import_module("props." + pid.lower())
